@@ -108,21 +108,13 @@ structure St where
   fields : List Field
   deriving Repr, Inhabited
 
-mutual
-/-- `expandComponents(mesg, containingValue, baseType, components)` -/
-def expandComponents (cv : CV) (p : Profile) (mesgNum : Nat) : Nat → St → Value → Nat → List Comp → St
-  | 0, st, _, _, _ => st
-  | fuel + 1, st, containing, bt, comps =>
-    if comps.isEmpty then st
-    else if !(valid containing bt) then st
-    else match Fit.Bits.makeBits containing with
-      | none => st
-      | some bits => compLoop cv p mesgNum fuel (comps.length > 1) st bits comps
-
-/-- the `for i := range components` loop -/
-def compLoop (cv : CV) (p : Profile) (mesgNum : Nat) : Nat → Bool → St → List Nat → List Comp → St
-  | _, _, st, _, [] => st
-  | fuel, multi, st, bits, c :: rest =>
+/-- the `for i := range components` loop of `expandComponents`; `recur` is `expandComponents` itself one level down
+(for the destination's own components). Kept as a separate structural recursion over the component list so that
+`expandComponents` is structurally recursive on its fuel (and evaluates in the kernel). -/
+def compLoopWith (recur : St → Value → Nat → List Comp → St) (cv : CV) (p : Profile) (mesgNum : Nat) :
+    Bool → St → List Nat → List Comp → St
+  | _, st, _, [] => st
+  | multi, st, bits, c :: rest =>
     let pr := Fit.Bits.pull bits c.bits
     if pr.1 = 0 ∧ multi then st            -- `break`
     else
@@ -140,9 +132,60 @@ def compLoop (cv : CV) (p : Profile) (mesgNum : Nat) : Nat → Bool → St → L
       let comps' := match subFieldSubst fields cf.2.2 with
         | some sf => sf.comps
         | none => cf.2.1
-      let st' := expandComponents cv p mesgNum fuel { acc := av.2, fields := fields } value cf.1.baseType comps'
-      compLoop cv p mesgNum fuel multi st' pr.2 rest
-end
+      let st' := recur { acc := av.2, fields := fields } value cf.1.baseType comps'
+      compLoopWith recur cv p mesgNum multi st' pr.2 rest
+
+/-- `expandComponents(mesg, containingValue, baseType, components)` -/
+def expandComponents (cv : CV) (p : Profile) (mesgNum : Nat) : Nat → St → Value → Nat → List Comp → St
+  | 0, st, _, _, _ => st
+  | fuel + 1, st, containing, bt, comps =>
+    if comps.isEmpty then st
+    else if !(valid containing bt) then st
+    else match Fit.Bits.makeBits containing with
+      | none => st
+      | some bits => compLoopWith (expandComponents cv p mesgNum fuel) cv p mesgNum (comps.length > 1) st bits comps
+
+/-- the `for i := range components` loop at recursion budget `fuel` -/
+def compLoop (cv : CV) (p : Profile) (mesgNum : Nat) (fuel : Nat) : Bool → St → List Nat → List Comp → St :=
+  compLoopWith (expandComponents cv p mesgNum fuel) cv p mesgNum
+
+theorem expandComponents_zero_eq (cv : CV) (p : Profile) (mesgNum : Nat) (st : St) (v : Value) (bt : Nat) (comps : List Comp) :
+    expandComponents cv p mesgNum 0 st v bt comps = st := rfl
+
+theorem expandComponents_succ_eq (cv : CV) (p : Profile) (mesgNum fuel : Nat) (st : St) (containing : Value) (bt : Nat)
+    (comps : List Comp) :
+    expandComponents cv p mesgNum (fuel + 1) st containing bt comps =
+      if comps.isEmpty then st
+      else if !(valid containing bt) then st
+      else match Fit.Bits.makeBits containing with
+        | none => st
+        | some bits => compLoop cv p mesgNum fuel (comps.length > 1) st bits comps := rfl
+
+theorem compLoop_nil_eq (cv : CV) (p : Profile) (mesgNum fuel : Nat) (multi : Bool) (st : St) (bits : List Nat) :
+    compLoop cv p mesgNum fuel multi st bits [] = st := rfl
+
+theorem compLoop_cons_eq (cv : CV) (p : Profile) (mesgNum fuel : Nat) (multi : Bool) (st : St) (bits : List Nat) (c : Comp)
+    (rest : List Comp) :
+    compLoop cv p mesgNum fuel multi st bits (c :: rest) =
+      (let pr := Fit.Bits.pull bits c.bits
+      if pr.1 = 0 ∧ multi then st
+      else
+        let av := if c.accumulate then Fit.Accum.accumulate st.acc mesgNum c.fieldNum pr.1 c.bits else (pr.1, st.acc)
+        let cf := createField p mesgNum c.fieldNum
+        let val := cv av.1 c.scale c.offset cf.1.scale cf.1.offset
+        let value := convertU32 val cf.1.baseType
+        let fields :=
+          match lastIdx st.fields c.fieldNum with
+          | some j =>
+            st.fields.modify j fun f =>
+              { f with value := if (f.base.map (·.array)).getD false then valueAppend f.value value else value }
+          | none =>
+            st.fields ++ [{ base := some cf.1, value := if cf.1.array then valueAppend .invalid value else value, isExpanded := true }]
+        let comps' := match subFieldSubst fields cf.2.2 with
+          | some sf => sf.comps
+          | none => cf.2.1
+        let st' := expandComponents cv p mesgNum fuel { acc := av.2, fields := fields } value cf.1.baseType comps'
+        compLoop cv p mesgNum fuel multi st' pr.2 rest) := rfl
 
 /-- `uint32(x)` of a scalar as `collectAccumulableValues` computes it -/
 def toU32 (v : Value) : List Nat :=
@@ -205,5 +248,28 @@ def decodeSeq (cv : CV) (p : Profile) (expand : Bool) (ms : List Message) : List
   (ms.foldl (fun (s : Fit.Accum.Acc × List Message) m =>
     let r := decodeTail cv p expand s.1 m
     (r.1, s.2 ++ [r.2])) ([], [])).2
+
+/-! ### which wire fields expansion may change (specification side of `C05_untouched`) -/
+
+/-- all components a profile field may expand with (its own and those of its sub-fields) -/
+def compsAll (f : Fld) : List Comp := f.comps ++ f.subs.flatMap (·.comps)
+
+def compsOfNum (p : Profile) (mesgNum num : Nat) : List Comp :=
+  match lookup p mesgNum num with
+  | some f => compsAll f
+  | none => []
+
+/-- destinations that `comps` can write within `k` levels of nesting -/
+def reach (p : Profile) (mesgNum : Nat) : Nat → List Comp → List Nat
+  | 0, _ => []
+  | k + 1, comps => comps.flatMap fun c => c.fieldNum :: reach p mesgNum k (compsOfNum p mesgNum c.fieldNum)
+
+/-- destinations of the components of the fields PRESENT in the message (field- or sub-field-level), transitively
+through the destinations' own components, as deep as the decoder's recursion is modelled -/
+def destsPresent (p : Profile) (mesgNum : Nat) (fields : List Field) : List Nat :=
+  fields.flatMap fun f =>
+    match f.base with
+    | some b => reach p mesgNum expandFuel (compsOfNum p mesgNum b.num)
+    | none => []
 
 end Fit.Expand
